@@ -29,6 +29,8 @@ def obligations(ctx):
     obs += [o for o in c17.kernel_obs(ctx) if o.name.startswith("dot/") or o.name.startswith("fftvec/")]
     tq = core.tables_dir(ctx, (1, 2, 4, 8, 16, 32), ())
     obs += [o for o in c06.obligations(ctx) if any(("/m=%d/" % m) in o.name for m in (1, 2, 4, 8, 16, 32))]
+    obs += c06.schedule_obs(ctx)  # AVX2 driver = reference driver, pass for pass, for every m up to 65536
+    obs += c10.accel_obs(ctx, core.tables_dir(ctx, (), ()))  # q120 products ref / AVX2 congruent to the same sum for every ell <= 10000
     obs += [o for o in c14.obligations(ctx) if "/direct/" in o.name or ("/init/" in o.name and "to_tnx" not in o.name) or "to_tnx/avx/L=29/d=2^9/e=2" in o.name
             or "to_tnx/ref/L=29/d=2^9/e=2" in o.name]
     obs += c10.product_obs(ctx, core.tables_dir(ctx, (), ()), [2, 3])
